@@ -72,6 +72,7 @@ QuoteChar(c) == CASE c = " " -> <<"%", "2", "0">>
                   [] c = "%" -> <<"%", "2", "5">>
                   [] c = ":" -> <<"%", "3", "A">>
                   [] c = UMark -> UBytes
+                  [] Len(c) = 4 -> <<"%", SubSeq(c, 2, 2), SubSeq(c, 3, 3)>>     \* a byte token "<XY>" (control character)
                   [] OTHER -> <<c>>
 RECURSIVE Quote(_)
 Quote(s) == IF s = <<>> THEN <<>> ELSE QuoteChar(Head(s)) \o Quote(Tail(s))
@@ -150,8 +151,11 @@ Same(kind, got, want) == IF kind \in {"loc", "locq"} /\ ~Canonical(want)
 \*   - a plain path that contains ":/" is taken for a URL of an unknown scheme and returned unchanged;
 \*   - percent sequences are decoded (and, for file:// URLs, not encoded again): visible on plain paths
 \*     and on canonical URLs (a non-canonical URL is only compared up to percent-decoding)
+\*     (there, the decoded URL must not decode any further: file:///d/%%414 -> file:///n/%A4 is another file)
 Class(kind, v) == IF kind = "path" /\ HasColonSlash(v) THEN "colon-slash-in-name:not-remapped"
-                  ELSE IF kind # "http" /\ Unquote(v) # v /\ (kind = "path" \/ Canonical(v)) THEN "percent-sequence-decoded"
+                  ELSE IF kind = "path" /\ Unquote(v) # v THEN "percent-sequence-decoded"
+                  ELSE IF kind \in {"loc", "locq"} /\ Canonical(v) /\ Unquote(v) # v THEN "percent-sequence-decoded"
+                  ELSE IF kind \in {"loc", "locq"} /\ ~Canonical(v) /\ Unquote(Unquote(v)) # Unquote(v) THEN "percent-sequence-decoded"
                   ELSE "none"
 
 \* everything about one (kind, relative part, directory pair), computed once
